@@ -18,16 +18,31 @@ spurious wake-up (`Act.spurious`) or by a notification, and the mutex is re-acqu
 `reacq`.  A notification that finds the thread not `blocked` is lost.
 
 Inner task scheduler (`Inner`): run-now list, timed list (kept in time order by a stable
-insertion), and the per-task `abi_extension.scheduled` flag.  Task functions do not re-enter
-the scheduler.  `aws_task_scheduler_cancel_task` unlinks the task from wherever it is and then
-invokes it *unconditionally* — which is why `s_process_cancellation` must look at the flag.
+insertion), the `running_list` of `s_run_all`, and the per-task `abi_extension.scheduled` flag.
+`aws_task_scheduler_cancel_task` unlinks the task from wherever it is and then invokes it
+*unconditionally* — which is why `s_process_cancellation` must look at the flag.
+
+Task functions re-enter the scheduler.  `Sys.cbs` says what a task's function does when it is
+invoked with RUN / with CANCELED: nothing, or one call of `aws_thread_scheduler_schedule_now /
+schedule_future / cancel_task` on the same scheduler.  The call is made by the invoking thread —
+the scheduler thread inside `run_all` (`running`) or `s_process_cancellation` (`cancels`), the
+releasing thread inside the destroy callback's cancel drain or clean-up — through its own program
+points `cbLock / cbBody / cbUnlock / cbNotify` (resp. `dcb…`): it takes the hand-over mutex, so
+no task function may be invoked while that mutex is held (`c08_callbacks_run_unlocked`).
 
 `Cfg` selects the pre-fix behaviours for the regression witnesses: `drain := false` is the code
 before 04fad6b (no hand-over-queue drain after the join), `guardCancel := false` the code before
 797252a (queued cancellation always turned into a cancel).  `Cfg.fixed` is the code as it is.
 
+Use after the last release.  A task function that the *destroy callback* invokes (cancel drain,
+clean-up: the reference count is already zero) and that calls schedule / cancel uses the
+scheduler without holding a reference.  The model does what the code does — the call goes
+through, the task / record lands in a hand-over queue that is never looked at again — and sets
+the ghost flag `misuse`; exactly-once and no-leak are claimed for runs without it
+(`Props/C08.lean`, `c08_reentry_after_last_release_*` show what happens otherwise).
+
 Ghost state (never read by a transition's guard or data path): `scheduled`, `destroyer`,
-`Client.held`, the ids in `CRec` / `nextRec` / `freed`, `released`.
+`Client.held`, the ids in `CRec` / `nextRec` / `freed`, `released`, `sweeping`, `misuse`.
 -/
 namespace AwsVerif.ThreadSched
 
@@ -61,6 +76,33 @@ inductive Op where
   | release
 deriving DecidableEq, Repr
 
+/-- what a task function does when invoked: at most one re-entrant API call -/
+inductive CbOp where
+  | none
+  | scheduleNow (t : Task)
+  | scheduleFuture (t : Task) (τ : Nat)
+  | cancel (t : Task)
+deriving DecidableEq, Repr
+
+structure CbEntry where
+  task : Task
+  status : Status
+  op : CbOp
+deriving DecidableEq, Repr
+
+abbrev Cbs := List CbEntry
+
+/-- the first entry for `(t, st)`; no entry = the function does nothing -/
+def Cbs.get : Cbs → Task → Status → CbOp
+  | [], _, _ => .none
+  | e :: r, t, st => if e.task = t ∧ e.status = st then e.op else Cbs.get r t st
+
+/-- the task a callback operation is going to push into the scheduling queue -/
+def CbOp.target : CbOp → List Task
+  | .scheduleNow t => [t]
+  | .scheduleFuture t _ => [t]
+  | _ => []
+
 structure Cfg where
   /-- 04fad6b: destroy callback drains both hand-over queues after the join -/
   drain : Bool
@@ -75,9 +117,11 @@ def Cfg.fixed : Cfg := { drain := true, guardCancel := true }
 structure Inner where
   asap : List Task
   timed : List Task
+  /-- `running_list` of `s_run_all`: swept out of the two lists, not yet invoked -/
+  running : List Task
   flag : Task → Bool
 
-def Inner.empty : Inner := { asap := [], timed := [], flag := fun _ => false }
+def Inner.empty : Inner := { asap := [], timed := [], running := [], flag := fun _ => false }
 
 def setF (f : Task → Bool) (t : Task) (b : Bool) : Task → Bool := fun u => if u = t then b else f u
 
@@ -93,18 +137,27 @@ def Inner.schedule (I : Inner) (ts : Task → Nat) (t : Task) : Inner :=
 
 /-- the removal part of `aws_task_scheduler_cancel_task` (the invocation is logged by the caller) -/
 def Inner.cancel (I : Inner) (t : Task) : Inner :=
-  { asap := I.asap.erase t, timed := I.timed.erase t, flag := setF I.flag t false }
+  { asap := I.asap.erase t, timed := I.timed.erase t, running := I.running.erase t, flag := setF I.flag t false }
 
-/-- `aws_task_scheduler_run_all(now)`: new scheduler state and the tasks invoked, in order -/
-def Inner.runAll (I : Inner) (ts : Task → Nat) (now : Nat) : Inner × List Task :=
-  let running := I.asap ++ I.timed.filter (fun t => decide (ts t ≤ now))
-  ({ asap := [], timed := I.timed.filter (fun t => !decide (ts t ≤ now)),
-     flag := fun u => if u ∈ running then false else I.flag u }, running)
+/-- first half of `s_run_all(now, …)`: everything due moves to the running list (run-now tasks
+first, then timed tasks in time order).  `running_list` is a fresh local list in C; it is empty
+here in every reachable state (`InvR.runInv`), the append keeps the definition total. -/
+def Inner.sweepDue (I : Inner) (ts : Task → Nat) (now : Nat) : Inner :=
+  { I with asap := [], timed := I.timed.filter (fun t => !decide (ts t ≤ now)),
+           running := I.running ++ I.asap ++ I.timed.filter (fun t => decide (ts t ≤ now)) }
 
-/-- `aws_task_scheduler_clean_up`: everything pending is invoked as canceled -/
-def Inner.cleanUp (I : Inner) : Inner × List Task :=
-  let running := I.asap ++ I.timed
-  ({ asap := [], timed := [], flag := fun u => if u ∈ running then false else I.flag u }, running)
+/-- `s_run_all(UINT64_MAX, CANCELED)` of the clean-up: no 64-bit time stamp is later -/
+def Inner.sweepAll (I : Inner) : Inner :=
+  { I with asap := [], timed := [], running := I.running ++ I.asap ++ I.timed }
+
+/-- second half of `s_run_all`: pop the next task; `aws_task_run` clears its scheduled flag -/
+def Inner.popRunning (I : Inner) : Option (Task × Inner) :=
+  match I.running with
+  | [] => none
+  | t :: r => some (t, { I with running := r, flag := setF I.flag t false })
+
+/-- the return value of `aws_task_scheduler_has_tasks`: something is pending -/
+def Inner.hasTasks (I : Inner) : Bool := !(I.asap.isEmpty && I.timed.isEmpty)
 
 def U64 : Nat := 2^64
 def U64MAX : Nat := 2^64 - 1
@@ -122,6 +175,12 @@ def timeoutPos (next now : Nat) : Bool :=
 
 /-! ### Threads -/
 
+/-- where the scheduler thread continues after a task function's API call -/
+inductive SRet where
+  | cancels
+  | running
+deriving DecidableEq, Repr
+
 inductive SPc where
   | loadExit    -- `while (!aws_atomic_load_int(&should_exit))`
   | lock1       -- aws_mutex_lock
@@ -130,7 +189,12 @@ inductive SPc where
   | feed        -- while (!empty(list_cpy)) schedule_future / schedule_now
   | cancels     -- while (!empty(cancel_list_cpy)) s_process_cancellation
   | readClock   -- aws_high_res_clock_get_ticks
-  | runAll      -- aws_task_scheduler_run_all
+  | runAll      -- aws_task_scheduler_run_all: sweep the due tasks into the running list
+  | running     -- … while (!empty(running_list)) aws_task_run(pop_front, RUN_READY)
+  | cbLock (op : CbOp) (ret : SRet)   -- task function calls the API: aws_mutex_lock
+  | cbBody (op : CbOp) (ret : SRet)   -- … holding the mutex: push_back / search + record
+  | cbUnlock (ret : SRet)             -- … aws_mutex_unlock
+  | cbNotify (ret : SRet)             -- … notify_one (nobody waits: the thread itself is the only waiter)
   | timeout     -- has_tasks → timeout; `if (timeout > 0)`
   | lock2       -- aws_mutex_lock
   | predClock   -- s_thread_should_wake: clock read
@@ -152,6 +216,12 @@ structure SThread where
   pnow : Nat
 deriving Repr
 
+/-- where the destroy callback continues after a task function's API call -/
+inductive DRet where
+  | drainC
+  | sweep
+deriving DecidableEq, Repr
+
 inductive CPc where
   | idle                          -- between two operations
   | sBody (t : Task) (τ : Nat)    -- schedule_future: holding the mutex, before push_back
@@ -163,7 +233,12 @@ inductive CPc where
   | dJoin                         -- aws_thread_join
   | dDrainQ                       -- while (!empty(scheduling_queue)) …
   | dDrainC                       -- while (!empty(cancel_queue)) s_process_cancellation
-  | dCleanUp                      -- aws_task_scheduler_clean_up
+  | dCleanUp                      -- aws_task_scheduler_clean_up: while (has_tasks) sweep everything …
+  | dSweep                        -- … and run it as canceled
+  | dcbLock (op : CbOp) (ret : DRet)  -- task function invoked by the destroy callback calls the API: lock
+  | dcbBody (op : CbOp) (ret : DRet)
+  | dcbUnlock (ret : DRet)
+  | dcbNotify (ret : DRet)
   | dFree                         -- clean-ups, aws_mem_release(scheduler); release returns
 deriving DecidableEq, Repr
 
@@ -197,6 +272,12 @@ structure Sys where
   destroyer : Option Nat
   /-- the scheduler object has been freed and the final `release` has returned -/
   released : Bool
+  /-- what the task functions do (constant) -/
+  cbs : Cbs
+  /-- ghost: the destroy callback is inside `s_run_all(UINT64_MAX, CANCELED)` -/
+  sweeping : Bool
+  /-- ghost: a task function invoked by the destroy callback (reference count zero) called the API -/
+  misuse : Bool
 
 inductive Act where
   | tick (d : Nat)     -- environment: the virtual clock advances by `d`
@@ -209,11 +290,12 @@ def SThread.init : SThread := { pc := .loadExit, listCpy := [], cancelCpy := [],
 
 /-- every client thread starts owning one reference (the creating thread calls `new` and then
 `acquire` for each further client before it starts them) -/
-def init (progs : List (List Op)) : Sys :=
+def init (progs : List (List Op)) (cbs : Cbs := []) : Sys :=
   { schedQ := [], cancelQ := [], mutex := none, shouldExit := false, refCount := progs.length,
     inner := Inner.empty, tsOf := fun _ => 0, clock := 0, log := [], st := SThread.init,
     clients := progs.map (fun p => { prog := p, pc := .idle, held := 1 }),
-    scheduled := [], nextRec := 0, freed := [], destroyer := none, released := false }
+    scheduled := [], nextRec := 0, freed := [], destroyer := none, released := false, cbs := cbs,
+    sweeping := false, misuse := false }
 
 /-- condition-variable waiters (only the scheduler thread ever waits) -/
 def cvWaiters (s : Sys) : List Nat := if s.st.pc = .blocked then [0] else []
@@ -222,9 +304,52 @@ def cvWaiters (s : Sys) : List Nat := if s.st.pc = .blocked then [0] else []
 def wake (s : Sys) : Sys :=
   if s.st.pc = .blocked then { s with st := { s.st with pc := .reacq false } } else s
 
-/-- `s_process_cancellation` executed by thread `thr` -/
+/-- the critical section of `aws_thread_scheduler_schedule_future(task, τ)` -/
+def pushTask (s : Sys) (t : Task) (τ : Nat) : Sys :=
+  { s with schedQ := s.schedQ ++ [t], tsOf := fun u => if u = t then τ else s.tsOf u,
+           scheduled := s.scheduled ++ [t] }
+
+/-- the critical section of `aws_thread_scheduler_cancel_task(task)` -/
+def pushCancel (s : Sys) (t : Task) : Sys :=
+  let found := decide (t ∈ s.schedQ)
+  { s with schedQ := if found then s.schedQ.erase t else s.schedQ,
+           cancelQ := s.cancelQ ++ [{ id := s.nextRec, task := t, removed := found }],
+           nextRec := s.nextRec + 1 }
+
+/-- the critical section of a task function's API call -/
+def apiBody (s : Sys) : CbOp → Sys
+  | .none => s
+  | .scheduleNow t => pushTask s t 0
+  | .scheduleFuture t τ => pushTask s t τ
+  | .cancel t => pushCancel s t
+
+/-- `removed_from_scheduling_queue || task->abi_extension.scheduled` -/
+def procGuard (cfg : Cfg) (s : Sys) (r : CRec) : Bool :=
+  r.removed || s.inner.flag r.task || !cfg.guardCancel
+
+/-- program point after a task function was invoked: its API call, or straight on -/
+def SRet.pc : SRet → SPc
+  | .cancels => .cancels
+  | .running => .running
+
+def afterInvokeS (op : CbOp) (ret : SRet) : SPc :=
+  match op with
+  | .none => ret.pc
+  | op => .cbLock op ret
+
+def DRet.pc : DRet → CPc
+  | .drainC => .dDrainC
+  | .sweep => .dSweep
+
+def afterInvokeD (op : CbOp) (ret : DRet) : CPc :=
+  match op with
+  | .none => ret.pc
+  | op => .dcbLock op ret
+
+/-- `s_process_cancellation` executed by thread `thr` (the record is released after the task
+function returned; the model releases it in the same step, which no other thread can tell) -/
 def procRec (cfg : Cfg) (thr : Nat) (s : Sys) (r : CRec) : Sys :=
-  if r.removed || s.inner.flag r.task || !cfg.guardCancel then
+  if procGuard cfg s r then
     { s with inner := s.inner.cancel r.task,
              log := s.log ++ [{ task := r.task, status := .canceled, thread := thr, time := s.clock }],
              freed := s.freed ++ [r.id] }
@@ -245,13 +370,24 @@ def stepSched (cfg : Cfg) (s : Sys) : Option Sys :=
   | .cancels =>
     match st.cancelCpy with
     | [] => some { s with st := { st with pc := .readClock } }
-    | r :: rest => some (procRec cfg 0 { s with st := { st with cancelCpy := rest } } r)
+    | r :: rest =>
+      let op := if procGuard cfg s r then s.cbs.get r.task .canceled else .none
+      let s1 := procRec cfg 0 { s with st := { st with cancelCpy := rest } } r
+      some { s1 with st := { s1.st with pc := afterInvokeS op .cancels } }
   | .readClock => some { s with st := { st with now := s.clock, pc := .runAll } }
-  | .runAll =>
-    let res := s.inner.runAll s.tsOf st.now
-    some { s with inner := res.1,
-                  log := s.log ++ res.2.map (fun t => { task := t, status := .run, thread := 0, time := s.clock }),
-                  st := { st with pc := .timeout } }
+  | .runAll => some { s with inner := s.inner.sweepDue s.tsOf st.now, st := { st with pc := .running } }
+  | .running =>
+    match s.inner.popRunning with
+    | none => some { s with st := { st with pc := .timeout } }
+    | some (t, I) =>
+      some { s with inner := I,
+                    log := s.log ++ [{ task := t, status := .run, thread := 0, time := s.clock }],
+                    st := { st with pc := afterInvokeS (s.cbs.get t .run) .running } }
+  | .cbLock op ret =>
+    if s.mutex = none then some { s with mutex := some 0, st := { st with pc := .cbBody op ret } } else none
+  | .cbBody op ret => let s1 := apiBody s op; some { s1 with st := { s1.st with pc := .cbUnlock ret } }
+  | .cbUnlock ret => some { s with mutex := none, st := { st with pc := .cbNotify ret } }
+  | .cbNotify ret => some { s with st := { st with pc := ret.pc } }
   | .timeout =>
     some { s with st := { st with pc := if timeoutPos (s.inner.next s.tsOf) st.now then .lock2 else .loadExit } }
   | .lock2 => if s.mutex = none then some { s with mutex := some 0, st := { st with pc := .predClock } } else none
@@ -325,12 +461,33 @@ def stepClient (cfg : Cfg) (s : Sys) (i : Nat) : Option Sys :=
     | .dDrainC =>
       match s.cancelQ with
       | [] => some { s with clients := s.clients.set i { c with pc := .dCleanUp } }
-      | r :: rest => some (procRec cfg me { s with cancelQ := rest } r)
+      | r :: rest =>
+        let op := if procGuard cfg s r then s.cbs.get r.task .canceled else .none
+        let s1 := procRec cfg me { s with cancelQ := rest } r
+        some { s1 with misuse := s1.misuse || decide (op ≠ .none),
+                       clients := s1.clients.set i { c with pc := afterInvokeD op .drainC } }
     | .dCleanUp =>
-      let res := s.inner.cleanUp
-      some { s with inner := res.1,
-                    log := s.log ++ res.2.map (fun t => { task := t, status := .canceled, thread := me, time := s.clock }),
-                    clients := s.clients.set i { c with pc := .dFree } }
+      if s.inner.hasTasks then
+        some { s with inner := s.inner.sweepAll, sweeping := true, clients := s.clients.set i { c with pc := .dSweep } }
+      else some { s with clients := s.clients.set i { c with pc := .dFree } }
+    | .dSweep =>
+      match s.inner.popRunning with
+      | none => some { s with sweeping := false, clients := s.clients.set i { c with pc := .dCleanUp } }
+      | some (t, I) =>
+        let op := s.cbs.get t .canceled
+        some { s with inner := I,
+                      log := s.log ++ [{ task := t, status := .canceled, thread := me, time := s.clock }],
+                      misuse := s.misuse || decide (op ≠ .none),
+                      clients := s.clients.set i { c with pc := afterInvokeD op .sweep } }
+    | .dcbLock op ret =>
+      if s.mutex = none then
+        some { s with mutex := some me, clients := s.clients.set i { c with pc := .dcbBody op ret } }
+      else none
+    | .dcbBody op ret =>
+      let s1 := apiBody s op
+      some { s1 with clients := s1.clients.set i { c with pc := .dcbUnlock ret } }
+    | .dcbUnlock ret => some { s with mutex := none, clients := s.clients.set i { c with pc := .dcbNotify ret } }
+    | .dcbNotify ret => some { wake s with clients := s.clients.set i { c with pc := ret.pc } }
     | .dFree => some { s with released := true, clients := s.clients.set i { c with pc := .idle } }
 
 /-- one labelled step; `none` = the action is not enabled in `s` -/
@@ -357,7 +514,7 @@ def recs (s : Sys) : List CRec := s.cancelQ ++ s.st.cancelCpy
 /-- tasks that live only in a cancellation record (the cancel call took them out of the queue) -/
 def remTasks (l : List CRec) : List Task := (l.filter (·.removed)).map (·.task)
 
-def innerTasks (s : Sys) : List Task := s.inner.asap ++ s.inner.timed
+def innerTasks (s : Sys) : List Task := s.inner.asap ++ s.inner.timed ++ s.inner.running
 
 /-- the four places a scheduled task can be -/
 def places (s : Sys) : List Task := handOver s ++ remTasks (recs s) ++ innerTasks s ++ logTasks s
@@ -366,6 +523,13 @@ def Client.done (c : Client) : Bool := c.pc == .idle && c.prog.isEmpty
 
 /-- all client programs finished and the final release returned -/
 def terminated (s : Sys) : Bool := s.released && s.clients.all Client.done
+
+/-- the thread that performs an action -/
+def Act.thread : Act → Option Nat
+  | .tick _ => none
+  | .sched => some 0
+  | .spurious => some 0
+  | .client i => some (i + 1)
 
 /-- thread actions (everything except the environment's clock tick) -/
 def Act.isThread : Act → Bool
@@ -397,15 +561,32 @@ def wfCancel : List Task → List Op → Bool
   | seen, .cancel t :: rest => decide (t ∈ seen) && wfCancel seen rest
   | seen, _ :: rest => wfCancel seen rest
 
-/-- what the theorems need: the reference discipline, and no task scheduled twice -/
-def WF (progs : List (List Op)) : Prop :=
-  (∀ p ∈ progs, wfProg 1 p = true) ∧ (progs.flatMap schedTasks).Nodup
+/-- the tasks the task functions are going to schedule -/
+def cbTargets (cbs : Cbs) : List Task := cbs.flatMap (·.op.target)
+
+/-- what the theorems need: the reference discipline, and no task scheduled twice — neither by two
+client operations, nor by two task functions, nor by one of each -/
+def WF (progs : List (List Op)) (cbs : Cbs := []) : Prop :=
+  (∀ p ∈ progs, wfProg 1 p = true) ∧ (progs.flatMap schedTasks ++ cbTargets cbs).Nodup
 
 /-- the API contract in full: additionally a cancel targets a task its thread has scheduled -/
-def WFStrict (progs : List (List Op)) : Prop :=
-  WF progs ∧ ∀ p ∈ progs, wfCancel [] p = true
+def WFStrict (progs : List (List Op)) (cbs : Cbs := []) : Prop :=
+  WF progs cbs ∧ ∀ p ∈ progs, wfCancel [] p = true
 
-instance (progs : List (List Op)) : Decidable (WF progs) := by unfold WF; infer_instance
-instance (progs : List (List Op)) : Decidable (WFStrict progs) := by unfold WFStrict; infer_instance
+instance (progs : List (List Op)) (cbs : Cbs) : Decidable (WF progs cbs) := by unfold WF; infer_instance
+instance (progs : List (List Op)) (cbs : Cbs) : Decidable (WFStrict progs cbs) := by unfold WFStrict; infer_instance
+
+/-- the remaining clause of well-formedness for re-entrant task functions, a decidable property of
+the run: no task function invoked by the destroy callback — i.e. after the last reference was
+released — has called schedule / cancel on the scheduler.  (Task functions invoked by the
+scheduler thread, with RUN or through an explicit cancel, may re-enter freely.) -/
+def NoReentryAfterLastRelease (s : Sys) : Prop := s.misuse = false
+
+instance (s : Sys) : Decidable (NoReentryAfterLastRelease s) := by unfold NoReentryAfterLastRelease; infer_instance
+
+/-- a static sufficient condition: no task function re-enters when invoked with CANCELED -/
+def NoCanceledReentry (cbs : Cbs) : Prop := ∀ e ∈ cbs, e.status = .canceled → e.op = .none
+
+instance (cbs : Cbs) : Decidable (NoCanceledReentry cbs) := by unfold NoCanceledReentry; infer_instance
 
 end AwsVerif.ThreadSched
